@@ -69,8 +69,7 @@ theorem Cong.frame {α : Type} {m : M α} (h : Frame m) : Cong m := by
   cases hm : m e with
   | ok a e1 =>
     rw [hm] at h0
-    have h0' : m e = .ok a { e1 with stack := e.stack, forks := e.forks } := h0
-    rw [hm] at h0'
+    have h0' : Res.ok a e1 = Res.ok a { e1 with stack := e.stack, forks := e.forks } := h0
     simp only [Res.ok.injEq, true_and] at h0'
     have hst : e1.stack = e.stack := by rw [h0']
     have hfk : e1.forks = e.forks := by rw [h0']
@@ -216,36 +215,24 @@ theorem Cong.stackTop : Cong stackTop := by
   | none => exact rfl
   | some v => exact ⟨rfl, hr⟩
 
+/-- the environment `pushfork pc` leaves -/
+def pushforkEnv (pc : Int) (e : Env) : Env :=
+  { e with
+    stack := e.stack.save.2
+    scopes := e.scopes.save.2
+    paths := e.paths.save.2
+    forks := { pc := pc, offset := e.offset, expdepth := e.expdepth,
+               stackindex := e.stack.save.1.1, stacklimit := e.stack.save.1.2,
+               scopeindex := e.scopes.save.1.1, scopelimit := e.scopes.save.1.2,
+               pathindex := e.paths.save.1.1, pathlimit := e.paths.save.1.2 } :: e.forks }
+
+theorem pushfork_eq (pc : Int) (e : Env) : pushfork pc e = .ok () (pushforkEnv pc e) := rfl
+
 theorem Cong.pushfork (pc : Int) : Cong (pushfork pc) := by
   intro e e' hr
   obtain ⟨st, fk, rfl, hs⟩ := hr.elim
-  obtain ⟨⟨xs, c1, c2⟩, hf, la, lb, fwa, fwb⟩ := hs
+  rw [pushfork_eq, pushfork_eq]
   refine ⟨rfl, ?_⟩
-  have hi1 := c1.index_lt
-  have hi2 := c2.index_lt
-  refine ⟨rfl, ?_⟩
-  simp only [Stack.save]
-  refine ⟨⟨xs, ?_, ?_⟩, ⟨⟨rfl, rfl, rfl, rfl, rfl, rfl, rfl⟩, ⟨xs, ?_, ?_⟩, ?_⟩, ?_, ?_, ?_, ?_⟩
-  · split <;> exact c1
-  · split <;> exact c2
-  · split <;> exact c1
-  · split <;> exact c2
-  · split <;> exact hf
-  · split
-    · exact ⟨by omega, hi1⟩
-    · exact la
-  · split
-    · exact ⟨by omega, hi2⟩
-    · exact lb
-  · split
-    · rename_i hgt
-      exact ⟨Int.le_refl _, by omega, la.1, fwa⟩
-    · rename_i hle
-      exact ⟨by omega, Int.le_refl _, la.1, fwa⟩
-  · split
-    · rename_i hgt
-      exact ⟨Int.le_refl _, by omega, lb.1, fwb⟩
-    · rename_i hle
-      exact ⟨by omega, Int.le_refl _, lb.1, fwb⟩
+  exact EnvRel.mk' (e := pushforkEnv pc e) (hs.save _ _ ⟨rfl, rfl, rfl, rfl, rfl, rfl, rfl⟩ rfl rfl rfl rfl)
 
 end Gojq.OptVM
